@@ -14,6 +14,15 @@
 3. spec -> code: the disturbance of a pipeline experiment is sampled at the ticks of the *specification's* wiring
    table (not the code's), block label vectors come from TLC's enumeration, adc_shifts is compared with the table.
 4. binding self-tests: corrupted records must be flagged.
+5. inputs and histories (audit after round e, DESIGN 9.7): every kind of experiment is also run the way a caller may equally
+   well run it - record lengths that are odd / not a power of two, single precision, Fortran-ordered / strided / read-only
+   arrays, label vectors of other element types with the outside stretch anywhere (and `False`), dead / noisy channels that
+   really are flat / noisy, the k_kwargs argument of destripe (mean referencing, channel groups, the defaults spelled out;
+   the output is then also judged by the zero-reference clause), group vectors spelled with sparse / negative / float /
+   string ids or as a list, more than three groups, groups of one or two rows, AGC whitening / windows of 1-5 samples /
+   offsets / zero stretches / a second pass; earlier calls in the same process on the same header, label vector and settings
+   containers (other arguments, one call failing), the calls in another order, tables handed out earlier and overwritten by
+   their owner.  All of it is judged by the same property-layer clauses.
 
 Decided by projection on the real output, NOT by TLC: Removed (RMS over the inside-brain channels and the interior
 of the record at least 40 dB below the high-passed input), Kept (peak-to-peak of each 3-channel spike >= 90 % of its
@@ -61,7 +70,13 @@ class Recorder:
                           (F, "fshift"), (S, "sosfiltfilt")):
             orig = getattr(mod, name)
             self.saved[(mod, name)] = orig
-            setattr(mod, name, self._wrap(name, orig))
+            wrapped = self._wrap(name, orig)
+            setattr(mod, name, wrapped)
+            # the same function bound under its own name in ibldsp.voltage (`from ibldsp.fourier import fshift`, `from
+            # scipy.signal import sosfiltfilt`): an import style, not another mechanism
+            if mod is not V and getattr(V, name, None) is orig:
+                self.saved[(V, name)] = orig
+                setattr(V, name, wrapped)
         return self
 
     def __exit__(self, *a):
@@ -75,7 +90,9 @@ class Recorder:
             try:
                 b = sig.bind(*a, **k)
                 b.apply_defaults()
-                args = dict(b.arguments)
+                # settings containers (dicts / lists of numbers) as they are at entry: the caller may reuse and the callee may
+                # change the object afterwards
+                args = {k: (copy.deepcopy(v) if isinstance(v, (dict, list, tuple)) else v) for k, v in b.arguments.items()}
             except TypeError:
                 args = {"_unbound": True}
             ev = {"id": len(self.events), "parent": self.stack[-1] if self.stack else -1, "name": name, "args": args}
@@ -130,21 +147,73 @@ def _even_fft(nsx, nsw):
     return int(ns_optim_fft(nsx + nsw)) % 2 == 0
 
 
+BUTTERS = [None, {"N": 3, "Wn": 0.01, "btype": "highpass"}, {"N": 2, "Wn": 0.2, "btype": "highpass"},
+           {"N": 3, "Wn": 0.15, "btype": "lowpass"}, {"N": 2, "Wn": [0.05, 0.3], "btype": "bandpass"}]
+
+
 def tree_settings(rng, fn):
     if fn == "car":
         return {"operator": rng.choice(["median", "average"])}
     if fn == "kfilt":
-        return {"lagc": rng.choice([None, 0, 300, 3000, 100]),
-                "butter_kwargs": rng.choice([None, {"N": 3, "Wn": 0.01, "btype": "highpass"}, {"N": 2, "Wn": 0.2, "btype": "highpass"}]),
+        return {"lagc": rng.choice([None, 0, 300, 3000, 100]), "butter_kwargs": copy.deepcopy(rng.choice(BUTTERS)),
                 "ntr_pad": rng.choice([0, 10]), "ntr_tap": rng.choice([None, 0, 5])}
     return {"si": 0.002, "dx": rng.choice([1, 5]), "vbounds": [1200, 1500], "btype": rng.choice(["highpass", "lowpass"]),
             "kfilt": rng.choice([None, {"bounds": [0, 0.01], "btype": "hp"}]), "lagc": rng.choice([None, 0.05, 0.026]),
             "ntr_pad": rng.choice([0, 4]), "ntr_tap": rng.choice([None, 6])}
 
 
-def calltree_experiment(fn, settings, grouping, seed):
-    """fn(x, collection=..., **settings) on the real code, wrapped; grouping: group id per block of 20 rows"""
+# how a caller may hand the same situation over (all inside the property's "channel groupings" / inputs): values of the group
+# vector, element type and memory layout of the data, what the process did before
+TREE_IDS = ("plain", "sparse", "float", "str", "list", "i1")
+TREE_LAYOUTS = ("C", "F", "view", "ro")
+
+
+def tree_opts(rng, fn, grouping):
+    """the dimensions of a call-tree experiment beyond (function, settings, grouping): see calltree_experiment"""
+    return {"ids": rng.choice(TREE_IDS) if grouping else "plain", "dtype": rng.choice(["f8", "f8", "f4"]),
+            "layout": rng.choice(TREE_LAYOUTS), "first": rng.choice(["groups", "alone"]), "prior": rng.random() < 0.5,
+            "sizes": rng.choice(["seed", "tiny"]) if fn == "car" else "seed"}
+
+
+def _group_vector(colabs, ids):
+    """the abstract group ids 0, 1, 2, ... as a caller may spell them"""
+    if colabs is None:
+        return None
+    if ids == "sparse":         # neither contiguous nor in the order of first appearance, with a negative one
+        return np.array([7, -2, 30, 11, -9, 4, 5, 19])[colabs]
+    if ids == "float":          # e.g. h["shank"] of a geometry read from a meta file
+        return colabs.astype(float) + 0.5
+    if ids == "str":
+        return np.array([f"shank{g}" for g in colabs])
+    if ids == "list":
+        return [int(g) for g in colabs]
+    if ids == "i1":
+        return colabs.astype(np.int8)
+    return colabs
+
+
+def _lay(x, layout):
+    """the same values in another memory layout (x itself is left alone)"""
+    if layout == "F":
+        return np.asfortranarray(x)
+    if layout == "view":        # every other row and sample of a larger array
+        big = np.zeros((2 * x.shape[0], 2 * x.shape[1]), dtype=x.dtype)
+        big[::2, ::2] = x
+        big[1::2] = 1e3
+        return big[::2, ::2]
+    y = x.copy()
+    if layout == "ro":
+        y.setflags(write=False)
+    return y
+
+
+def calltree_experiment(fn, settings, grouping, seed, opts=None):
+    """fn(x, collection=..., **settings) on the real code, wrapped; grouping: group id per block of rows.
+    opts (all optional): ids - spelling of the group vector; dtype f8 / f4; layout of x (C / F / strided view / read-only);
+    first - whether the call with groups or the calls on each group alone come first in the process; prior - a call with
+    other settings (sharing the settings containers) precedes everything; sizes 'tiny' - groups of 1, 2, 3 rows (car)"""
     import ibldsp.voltage as V
+    opts = dict(opts or {})
     rng = np.random.default_rng(seed)
     # rows per block: all 20 (even groups), all odd, or unequal sizes of both parities (a median over an odd / even number of
     # channels, groups of different sizes)
@@ -153,7 +222,10 @@ def calltree_experiment(fn, settings, grouping, seed):
     lo = 5 if fn == "car" else 19            # the spatial Butterworth filters need more rows than their edge padding (<= 15)
     sizes = ([20] * nblk if mode == 0 else [19] * nblk if mode == 1 else [int(v) for v in rng.integers(lo, lo + 9, nblk)] if mode == 2
              else [int(v) for v in 2 * rng.integers(lo // 2, lo // 2 + 5, nblk) + 1])
-    col = np.repeat(np.array(grouping), sizes) if grouping else None
+    if opts.get("sizes") == "tiny" and fn == "car":
+        sizes = [int(v) for v in rng.choice([1, 1, 2, 3, 4, 20], nblk)]
+    colabs = np.repeat(np.array(grouping), sizes) if grouping else None
+    col = _group_vector(colabs, opts.get("ids", "plain"))
     nc = int(sum(sizes))
     ns = 1024 if fn != "fk" else 256
     if fn == "kfilt" and settings["lagc"]:
@@ -161,20 +233,55 @@ def calltree_experiment(fn, settings, grouping, seed):
             ns += 64
     x = rng.standard_normal((nc, ns)) * rng.uniform(0.5, 20) + rng.standard_normal((1, ns)) * 5 + rng.uniform(-3, 3)
     x += np.cumsum(rng.standard_normal((nc, 1)), axis=0)
-    rec = {"kind": "calltree", "fn": fn, "seed": seed, "grouping": list(grouping), "concrete": _jsonable(settings),
-           "collection": [int(c) for c in col] if col is not None else [], "children": [], "zero": "na", "alone": "ok",
+    f4 = opts.get("dtype") == "f4"
+    if f4:
+        x = x.astype(np.float32)
+    layout = opts.get("layout", "C")
+    if layout == "ro" and fn != "car" and not grouping:
+        layout = "C"                          # without groups the gain control of kfilt / fk works in place on its argument
+    rec = {"kind": "calltree", "fn": fn, "seed": seed, "grouping": list(grouping), "concrete": _jsonable(settings), "opts": opts,
+           "collection": [int(c) for c in colabs] if colabs is not None else [], "children": [], "zero": "na", "alone": "ok",
            "settings": {}, "exc": ""}
-    kw = dict(settings)
-    xin = x.copy()
+    kw = dict(settings)                       # the containers inside (butter_kwargs, kfilt, vbounds) are shared by every call below
+    r = None
+
+    def alone_calls():
+        res = {}
+        for g in (sorted(set(grouping)) if grouping else [None]):
+            sel = np.arange(nc) if g is None else np.where(colabs == g)[0]
+            # each group on its own with the same settings; the padding of the recursion is not fixed by the property
+            cands = [kw]
+            if fn in ("kfilt", "fk"):
+                cands.append(dict(kw, ntr_pad=0, ntr_tap=None))
+            res[g] = (sel, [getattr(V, fn)(x[sel].copy(), **kk) for kk in cands])
+        return res
+
     try:
+        if opts.get("prior"):
+            # the process has filtered another record before, with other settings (and failed once on a malformed one)
+            other = tree_settings(random.Random(seed), fn)
+            for k in ("butter_kwargs", "kfilt", "vbounds"):
+                if k in other and other[k] is not None and kw.get(k) is not None and seed % 3 == 0:
+                    other[k] = kw[k]          # the very same container
+            try:
+                # ... whose groups carry the same names on other rows
+                colp = None if col is None else col[::-1] if isinstance(col, list) else np.ascontiguousarray(col[::-1])
+                getattr(V, fn)(_lay(x[:, : ns // 2] * 3.0 + 1.0, "C"), collection=colp, **other)
+                getattr(V, fn)(x[0].copy(), collection=col, **kw)       # a 1-d record: declined with an exception
+            except Exception:  # noqa
+                pass
+        alone = alone_calls() if opts.get("first") == "alone" else None
+        xin = _lay(x, layout)
         with Recorder() as r:
             out = getattr(V, fn)(xin, collection=col, **kw)
         ev = r.events
+        if alone is None:
+            alone = alone_calls()
     except Exception as ex:  # noqa
         rec["exc"] = f"{type(ex).__name__}: {ex}"
         rec["alone"] = "bad"
-        top = [e for e in r.events if e["parent"] == -1 and e["name"] == fn]
-        rec["settings"] = _abs_settings(fn, top[0]["args"]) if top else {}
+        top = [e for e in (r.events if r is not None else []) if e["parent"] == -1 and e["name"] == fn]
+        rec["settings"] = _abs_settings(fn, top[0]["args"]) if top else _abs_settings(fn, _effective(V, fn, kw))
         return rec
     top = [e for e in ev if e["parent"] == -1 and e["name"] == fn][0]
     rec["settings"] = _abs_settings(fn, top["args"])
@@ -183,34 +290,45 @@ def calltree_experiment(fn, settings, grouping, seed):
             rec["children"].append({"settings": _abs_settings(fn, e["args"]), "rows": _rows_in(top.get("xrows", []), e.get("xrows", [])),
                                     "collection_none": e["args"].get("collection") is None})
     scale = float(np.max(np.abs(x)))
-    groups = sorted(set(grouping)) if grouping else [None]
+    # single precision in: results are compared to single-precision rounding (the group call stores into an array of the input's type)
+    rtol, atol, ztol = (1e-4, 1e-5 * scale, 1e-5 * scale) if f4 else (1e-7, 1e-9 * scale, 1e-9 * scale)
     ok_alone = np.shape(out) == x.shape
     ok_zero = True
-    for g in groups:
-        sel = np.arange(nc) if g is None else np.where(col == g)[0]
+    for g, (sel, res) in alone.items():
         if np.shape(out) != x.shape:
             break
-        # each group on its own with the same settings; the padding of the recursion is not fixed by the property
-        cands = [kw]
-        if fn in ("kfilt", "fk"):
-            cands.append(dict(kw, ntr_pad=0, ntr_tap=None))
-        match = False
-        for kk in cands:
-            alone = getattr(V, fn)(x[sel].copy(), **kk)
-            if np.allclose(out[sel], alone, rtol=1e-7, atol=1e-9 * scale):
-                match = True
-        ok_alone = ok_alone and match
+        ok_alone = ok_alone and any(np.shape(a) == np.shape(out[sel]) and np.allclose(out[sel], a, rtol=rtol, atol=atol) for a in res)
         if fn == "car":
-            ref = np.median(out[sel], axis=0) if kw["operator"] == "median" else np.mean(out[sel], axis=0)
-            ok_zero = ok_zero and bool(np.max(np.abs(ref)) <= 1e-9 * scale)
+            o = np.asarray(out[sel], dtype=np.float64)
+            ref = np.median(o, axis=0) if kw["operator"] == "median" else np.mean(o, axis=0)
+            ok_zero = ok_zero and bool(np.max(np.abs(ref)) <= ztol)
     rec["alone"] = "ok" if ok_alone else "bad"
     if fn == "car":
         rec["zero"] = "ok" if ok_zero else "bad"
     return rec
 
 
-def agc_experiment(nc, ns, wl, si, ndead, seed, f32):
+def _effective(V, fn, kw):
+    """default-applied arguments of fn(x, **kw) without calling it"""
+    try:
+        b = inspect.signature(getattr(V, fn)).bind(None, **kw)
+        b.apply_defaults()
+        return dict(b.arguments)
+    except TypeError:
+        return {"_unbound": True}
+
+
+def agc_opts(rng):
+    """dimensions of a gain-control experiment beyond (channels, samples, window, dead channels, element type)"""
+    return {"eps": rng.choice([None, None, 1e-3, 1e-12, 1e-5]), "layout": rng.choice(["C", "F", "view"]), "dc": rng.random() < 0.5,
+            "gaps": rng.random() < 0.5, "twice": rng.random() < 0.5}
+
+
+def agc_experiment(nc, ns, wl, si, ndead, seed, f32, opts=None):
+    """opts (optional): eps - whitening other than the default; layout of x; dc - channels riding on a (negative) offset;
+    gaps - stretches of exact zeros longer than the window (muted saturations); twice - the returned data goes through agc again"""
     import ibldsp.voltage as V
+    opts = dict(opts or {})
     rng = np.random.default_rng(seed)
     x = rng.standard_normal((nc, ns)) * np.exp(rng.uniform(-8, 3, size=(nc, 1)))
     x[:, : ns // 3] *= 30
@@ -229,19 +347,39 @@ def agc_experiment(nc, ns, wl, si, ndead, seed, f32):
             c2 = live[(seed // 2) % len(live)]
             if c2 != c:
                 x[c2] = np.where(np.arange(ns) % 2 == 0, 7.0, -7.0) * (1 if ns % 2 == 0 else 0) + (0 if ns % 2 == 0 else x[c2])
+    if opts.get("dc") and live:
+        rows = live[:: 2]
+        x[rows] += -np.abs(x[rows]).max(axis=1, keepdims=True) * rng.uniform(0.5, 40, size=(len(rows), 1))
+    if opts.get("gaps") and live:
+        nwin = int(round(wl / si / 2) * 2 + 1)
+        for c in live[1:: 2] or live[:1]:
+            a0 = int(rng.integers(0, max(1, ns // 2)))
+            x[c, a0: a0 + min(ns // 2, nwin + int(rng.integers(1, 50)))] = 0
     if f32:
         x = x.astype(np.float32)
+    x = _lay(x, opts.get("layout", "C"))
     keep = x.copy()
-    rec = {"kind": "agc", "nc": nc, "ns": ns, "wl": wl, "si": si, "ndead": ndead, "seed": seed, "f32": f32,
+    rec = {"kind": "agc", "nc": nc, "ns": ns, "wl": wl, "si": si, "ndead": ndead, "seed": seed, "f32": f32, "opts": opts,
            "product": "bad", "shape_ok": False}
+    kw = {} if opts.get("eps") is None else {"epsilon": opts["eps"]}
+
+    def err_of(out, gain, want):
+        return np.max(np.abs(np.asarray(out, dtype=np.float64) * gain - want) / (np.abs(want) + 1e-30 + 1e-9 * np.max(np.abs(want), axis=1, keepdims=True)))
+
     try:
-        out, gain = V.agc(x, wl=wl, si=si)
+        out, gain = V.agc(x, wl=wl, si=si, **kw)
+        rec["shape_ok"] = bool(np.shape(out) == keep.shape and np.shape(gain) == keep.shape)
+        err = err_of(out, gain, keep) if rec["shape_ok"] else np.inf
+        if rec["shape_ok"] and opts.get("twice"):
+            # the caller goes on with what it was given back: once more through the gain control
+            keep2 = np.array(out, copy=True)
+            out2, gain2 = V.agc(out, wl=wl, si=si, **kw)
+            rec["shape_ok"] = bool(np.shape(out2) == keep.shape and np.shape(gain2) == keep.shape)
+            err = max(err, err_of(out2, gain2, keep2)) if rec["shape_ok"] else np.inf
     except Exception as ex:  # noqa
         rec["exc"] = type(ex).__name__
         return rec
-    rec["shape_ok"] = bool(np.shape(out) == keep.shape and np.shape(gain) == keep.shape)
     if rec["shape_ok"]:
-        err = np.max(np.abs(np.asarray(out, dtype=np.float64) * gain - keep) / (np.abs(keep) + 1e-30 + 1e-9 * np.max(np.abs(keep), axis=1, keepdims=True)))
         rec["product"] = "ok" if err <= (1e-4 if f32 else 1e-6) else "bad"
     return rec
 
@@ -282,14 +420,44 @@ def _pipeline_events(events, cycles):
     return out, shift, exact
 
 
-def _call_destripe(x, sc, h, labels):
+BY_VERSION = {"NP1": [1, 1.0], "NP2": [2, 2.4, 2.1], "NPultra": ["NPultra"]}
+
+
+def _lfp_butter(fs):
+    return {"N": 3, "Wn": [0.5, 300], "btype": "bandpass", "fs": fs}
+
+
+def _spatial_kwargs(sc, h):
+    """k_kwargs of the call: None (the defaults of destripe) or a dictionary the caller built
+    'explicit' - the documented defaults spelled out; 'average' - mean instead of median referencing; 'groups' - the
+    spatial filter run per channel group (the shanks of a 4-shank probe, else three unequal stretches of the probe)"""
+    mode = sc.get("spatial", "default")
+    if mode == "default":
+        return None
+    fs = 30000 if sc["stream"] == "ap" else 2500
+    kw = {"ntr_pad": 60, "ntr_tap": 0, "lagc": None if fs < 3000 else int(fs / 10), "butter_kwargs": {"N": 3, "Wn": 0.01, "btype": "highpass"}}
+    if mode == "average":
+        return {"operator": "average"} if sc["seed"] % 2 else dict(kw, operator="average")
+    if mode == "groups":
+        shank = np.asarray(h["shank"])
+        col = shank if len(np.unique(shank)) > 1 else np.repeat([4.0, 1.0, 2.0], [101, 150, 133])
+        kw = dict(kw, collection=col)
+        if sc["variant"] == "car" and sc["seed"] % 2:
+            kw["operator"] = "average"
+    return kw
+
+
+def _call_destripe(x, sc, h, labels, kw=None):
     import ibldsp.voltage as V
     kf = sc["variant"] == "kfilt"
+    extra = {} if kw is None else {"k_kwargs": kw}
     if sc["stream"] == "ap":
         if sc.get("by_version") and sc["gen"] in ("NP1", "NP2", "NPultra"):
-            v = {"NP1": 1, "NP2": 2, "NPultra": "NPultra"}[sc["gen"]]
-            return V.destripe(x, 30000, neuropixel_version=v, channel_labels=labels, k_filter=kf)
-        return V.destripe(x, 30000, h=h, channel_labels=labels, k_filter=kf)
+            vs = BY_VERSION[sc["gen"]]
+            return V.destripe(x, 30000, neuropixel_version=vs[sc["seed"] % len(vs)], channel_labels=labels, k_filter=kf, **extra)
+        return V.destripe(x, 30000, h=h, channel_labels=labels, k_filter=kf, **extra)
+    if kw is not None:      # destripe_lfp has no k_kwargs: its body, spelled out
+        return V.destripe(x, 2500, h=h, butter_kwargs=_lfp_butter(2500), k_filter=kf, channel_labels=labels, k_kwargs=kw)
     return V.destripe_lfp(x, 2500, h=h, channel_labels=labels, k_filter=kf)
 
 
@@ -300,40 +468,90 @@ def _butter_sos(stream):
     return scipy.signal.butter(N=3, Wn=[0.5, 300], btype="bandpass", fs=2500, output="sos")
 
 
+LABEL_KINDS = ("none", "good", "outside", "bad", "mixed")
+LABEL_KINDS_MORE = ("false", "outside_mid", "outside_head", "mixed_mid")
+
+
 def _labels_for(sc, rng):
-    """realistic label vectors: none / all good / a stretch outside at the tip end / + isolated dead and noisy"""
+    """realistic label vectors: none / all good / a stretch outside the brain (at the tip end; or, for the kinds *_mid / *_head,
+    in the middle or at the other end: the property says 'channels labelled outside the brain', not where they are) / + isolated
+    dead and noisy; 'false' is the documented way of saying 'no labels'"""
     kind = sc["labels"]
     if kind == "none":
         return None
+    if kind == "false":
+        return False
     lab = np.zeros(NC, dtype=int)
     if kind in ("outside", "mixed"):
         lab[NC - rng.integers(8, 120):] = 3
-    if kind in ("bad", "mixed"):
+    if kind in ("outside_mid", "mixed_mid"):
+        a0 = int(rng.integers(20, 200))
+        lab[a0: a0 + int(rng.integers(8, 120))] = 3
+        if rng.random() < 0.5:
+            lab[NC - int(rng.integers(1, 30)):] = 3
+    if kind == "outside_head":
+        lab[: int(rng.integers(8, 120))] = 3
+    if kind in ("bad", "mixed", "mixed_mid"):
         cand = np.arange(2, NC - 2, 3)          # isolated: every bad channel keeps good neighbours
         bad = rng.choice(cand, rng.integers(2, 14), replace=False)
         lab[bad] = np.where(lab[bad] == 3, 3, rng.choice([1, 2], size=bad.size))
-    return lab
+    ldt = sc.get("lab_dtype", "int")
+    return lab.astype({"int": int, "float": float, "i1": np.int8, "u1": np.uint8}[ldt])
+
+
+def _pipe_len(sc):
+    fs = 30000 if sc["stream"] == "ap" else 2500
+    ns = int(sc.get("ns", 4096))
+    while sc["stream"] == "ap" and sc["variant"] == "kfilt" and not _even_fft(ns, int(round(fs / 10 / 2) * 2 + 1)):
+        ns += 128
+    return ns
+
+
+def _prior_calls(sc, shared):
+    """what the process did before the call under test: destripe calls with other arguments (another generation / filter / stream
+    / labels), one of them on malformed input, on the objects a caller naturally keeps (per-generation header, label vector,
+    settings dictionary).  Their own results are judged where they are the call under test."""
+    for k, p in enumerate(sc.get("prior") or []):
+        rng = np.random.default_rng(p["seed"])
+        ns = _pipe_len(dict(p, ns=1024))
+        h = shared["h"].setdefault(p["gen"], _header(p["gen"]))
+        if p.get("own_objects"):
+            labels, kw = _labels_for(p, rng), _spatial_kwargs(p, h)
+        else:
+            labels, kw = shared["labels"], shared["kw"]
+            if kw is not None and "collection" in kw and isinstance(labels, np.ndarray):
+                kw = None
+        x = rng.standard_normal((NC, ns)) * 1e-5 + rng.standard_normal((1, ns)) * 1e-4
+        if p.get("malformed"):
+            x = x[: NC - 7]                   # a record with fewer channels than the header: declined with an exception
+        try:
+            _call_destripe(x, p, h, labels, kw)
+        except Exception:  # noqa
+            pass
 
 
 def pipeline_experiment(sc):
-    """one scenario (generation x variant x stream x label class x seed) on the real destripe"""
+    """one scenario (generation x variant x stream x label class x seed) on the real destripe.
+    optional keys: ns (record length), dtype f8 / f4, layout of x (C / F / strided view / read-only), lab_dtype, spatial
+    (default / explicit / average / groups: the k_kwargs argument), bad_data (dead channels flat, noisy channels noisy), spike_off
+    (first spike centre; one every 16 channels from there), amp_scale (volts / counts / nanovolts), spikes_first (the run with spikes precedes the run that
+    is measured for removal), prior (earlier calls of the same process, see _prior_calls)"""
     import scipy.signal
     from ibldsp import utils
     rng = np.random.default_rng(sc["seed"])
     gen, stream = sc["gen"], sc["stream"]
-    fs = 30000 if stream == "ap" else 2500
-    ns = 4096
-    while stream == "ap" and sc["variant"] == "kfilt" and not _even_fft(ns, int(round(fs / 10 / 2) * 2 + 1)):
-        ns += 128
+    ns = _pipe_len(sc)
     skew, cycles = _skew(gen)
-    h = _header(gen)
+    shared = {"h": {}}
+    h = shared["h"].setdefault(gen, _header(gen))
     labels = _labels_for(sc, rng)
+    haslab = isinstance(labels, np.ndarray)
     t = np.arange(ns, dtype=float)
     nf = int(rng.integers(3, 8))
     f = (rng.uniform(400, 9000, nf) / 30000) if stream == "ap" else (rng.uniform(3, 250, nf) / 2500)
     a = rng.uniform(0.2, 1, nf)
     p = rng.uniform(0, 2 * np.pi, nf)
-    amp = float(np.exp(rng.uniform(np.log(1e-5), np.log(2e-3))))
+    amp = float(np.exp(rng.uniform(np.log(1e-5), np.log(2e-3)))) * float(sc.get("amp_scale", 1.0))     # volts; counts; nanovolts
     c0, w0 = ns * rng.uniform(0.4, 0.6), ns / rng.uniform(9, 12)
 
     def stripe(tt):     # continuous, band-limited, vanishing at both ends
@@ -348,34 +566,84 @@ def pipeline_experiment(sc):
 
     spk = np.zeros((NC, ns))
     cents = []
+    # k-filter with channel groups: the recursion of kfilt filters each group without the mirrored padding of the whole-probe
+    # call (ntr_pad=0, hard-wired), so that a spike on the first / last rows of a group sits on the edge of a long spatial
+    # high-pass; those depths are left out of the Kept measurement of this mode only (reported, DESIGN 9.7)
+    edge = None
+    kwg = _spatial_kwargs(sc, h)
+    if sc["variant"] == "kfilt" and kwg is not None and "collection" in kwg and not haslab:
+        col = np.asarray(kwg["collection"])
+        edge = np.zeros(NC, dtype=bool)
+        for g in np.unique(col):
+            rows = np.where(col == g)[0]
+            edge[rows[:8]] = edge[rows[-8:]] = True
     samp = amp * rng.uniform(0.3, 3)
-    for k, ch in enumerate(range(1, NC - 1, 16)):
+    for k, ch in enumerate(range(int(sc.get("spike_off", 1)), NC - 1, 16)):        # "at every depth": offsets 1 .. 16 reach both ends
         t0 = 300 + k * ((ns - 600) // 24)
-        if labels is not None and np.any(labels[ch - 1:ch + 2] != 0):
+        if haslab and np.any(labels[ch - 1:ch + 2] != 0):
+            continue
+        if edge is not None and edge[ch]:
             continue
         for dc, am in ((-1, 0.5), (0, 1.0), (1, 0.5)):
             spk[ch + dc] += samp * am * spike(t + skew[ch + dc] - t0)
         cents.append((ch, t0))
     rec = {"kind": "pipeline", "gen": GENKEY[gen], "probe": gen, "scenario": sc, "events": [], "shift": [], "exact": False,
-           "nlabels": 0 if labels is None else NC, "ninside": NC if labels is None else int(np.sum(labels != 3)),
-           "removed": "bad", "kept": "bad", "att_db": None, "kept_min": None, "exc": ""}
+           "nlabels": NC if haslab else 0, "ninside": int(np.sum(labels != 3)) if haslab else NC,
+           "removed": "bad", "kept": "bad", "zero": "na", "att_db": None, "kept_min": None, "exc": "", "unbound": False}
+    dt = np.float32 if sc.get("dtype") == "f4" else np.float64
+    layout = sc.get("layout", "C")
+    x, xs = x.astype(dt), (x + spk).astype(dt)                      # what the caller holds (the references below start from it)
+    spk = xs.astype(np.float64) - x.astype(np.float64)
+    xclean = x
+    if sc.get("bad_data") and haslab and np.any((labels == 1) | (labels == 2)):
+        # the labels mean something: dead channels are flat, noisy channels carry noise far above everything else (the
+        # reference of the 40 dB stays the disturbance alone)
+        x, xs = x.copy(), xs.copy()
+        for arr in (x, xs):
+            arr[labels == 1] = 0
+            arr[labels == 2] += (rng.standard_normal((int(np.sum(labels == 2)), ns)) * amp * 30).astype(dt)
+    kw = _spatial_kwargs(sc, h)
+    if kw is not None and "collection" in kw and haslab:
+        kw = {k: v for k, v in kw.items() if k != "collection"}    # groups are rows of the array the spatial filter is given
+    shared.update(labels=labels, kw=kw)
+    kw0 = copy.deepcopy(kw) or {}
+    pristine = None if not haslab else labels.copy()
     try:
         with warnings.catch_warnings():
             warnings.simplefilter("ignore")
+            _prior_calls(sc, shared)
+            # the header, the label vector and the settings dictionary are the same objects in every call of this process
+            if sc.get("spikes_first"):
+                y2 = _call_destripe(_lay(xs, layout), sc, h, labels, kw)
             with Recorder() as r:
-                y = _call_destripe(x.copy(), sc, h, None if labels is None else labels.copy())
+                y = _call_destripe(_lay(x, layout), sc, h, labels, kw)
             rec["events"], rec["shift"], rec["exact"] = _pipeline_events(r.events, cycles)
-            y2 = _call_destripe(x + spk, sc, h, None if labels is None else labels.copy())
+            # the re-alignment did not go through fourier.fshift (inlined, another helper): the mechanism cannot be observed on
+            # this code (drift); Removed, measured on the output, still decides whether the delays were honoured (DESIGN 9.6)
+            rec["unbound"] = not any(e[0] == "realign" for e in rec["events"])
+            if not sc.get("spikes_first"):
+                y2 = _call_destripe(_lay(xs, layout), sc, h, labels, kw)
     except Exception as ex:  # noqa
         rec["exc"] = f"{type(ex).__name__}: {ex}"
         return rec
     sos = _butter_sos(stream)
-    ins = np.arange(NC) if labels is None else np.where(labels != 3)[0]
+    ins = np.arange(NC) if not haslab else np.where(pristine != 3)[0]
     sl = slice(ns // 8, ns - ns // 8)
-    ref = scipy.signal.sosfiltfilt(sos, x)
-    att = 20 * np.log10(max(float(utils.rms(y[ins][:, sl].ravel())), 1e-300) / float(utils.rms(ref[ins][:, sl].ravel())))
+    ref = scipy.signal.sosfiltfilt(sos, xclean.astype(np.float64))
+    if np.shape(y) != x.shape or np.shape(y2) != x.shape:
+        rec["exc"] = f"output shapes {np.shape(y)}, {np.shape(y2)}"
+        return rec
+    att = 20 * np.log10(max(float(utils.rms(np.asarray(y, dtype=np.float64)[ins][:, sl].ravel())), 1e-300) / float(utils.rms(ref[ins][:, sl].ravel())))
     rec["att_db"] = round(att, 1)
     rec["removed"] = "ok" if att <= -40 else "bad"
+    if sc["variant"] == "car":
+        # referencing through destripe: zero median (or mean, as requested) at every sample within each channel group
+        col = kw0.get("collection")
+        rows = [ins] if col is None else [np.where(np.asarray(col) == g)[0] for g in np.unique(col)]
+        fn = np.mean if kw0.get("operator", "median") == "average" else np.median
+        worst = max(float(np.max(np.abs(fn(np.asarray(y, dtype=np.float64)[g], axis=0)))) for g in rows)
+        ztol = 1e-9 if np.asarray(y).dtype == np.float64 else 1e-5          # rounding of the type the result comes in
+        rec["zero"] = "ok" if worst <= ztol * float(np.max(np.abs(ref))) else "bad"
     refs = scipy.signal.sosfiltfilt(sos, spk)
     kept = [float(np.ptp(y2[ch, t0 - 40:t0 + 60]) / np.ptp(refs[ch, t0 - 40:t0 + 60])) for ch, t0 in cents]
     rec["kept_min"] = round(min(kept), 3) if kept else None
@@ -391,7 +659,8 @@ def flow_experiment(sc):
     h = _header(gen)
     _, cycles = _skew(gen)
     lab6 = sc["labels6"]
-    labels = np.repeat(np.array(lab6), BLK)
+    labels = np.repeat(np.array(lab6), BLK).astype({"int": int, "float": float, "i1": np.int8}[sc.get("lab_dtype", "int")])
+    # the header and the label vector are the same objects in every call below (a caller computes them once per recording)
     ns = 2048
     x = rng.standard_normal((NC, ns)) * 1e-5 + rng.standard_normal((1, ns)) * 3e-5
     rec = {"kind": "flow", "gen": GENKEY[gen], "probe": gen, "scenario": sc, "labels": list(lab6), "perturb": [], "exc": ""}
@@ -399,7 +668,7 @@ def flow_experiment(sc):
     try:
         with warnings.catch_warnings():
             warnings.simplefilter("ignore")
-            y = _call_destripe(x.copy(), scd, h, labels.copy())
+            y = _call_destripe(x.copy(), scd, h, labels)
             pre = scipy.signal.sosfiltfilt(_butter_sos("ap"), x)
             from ibldsp.fourier import fshift
             pre = fshift(pre, h["sample_shift"], axis=1)        # the unfiltered path of an outside channel
@@ -407,7 +676,7 @@ def flow_experiment(sc):
                 xp = x.copy()
                 rows = slice(j * BLK, (j + 1) * BLK)
                 xp[rows] += rng.standard_normal((BLK, ns)) * 2e-5
-                yp = _call_destripe(xp.copy(), scd, h, labels.copy())
+                yp = _call_destripe(xp.copy(), scd, h, labels)
                 d = np.max(np.abs(yp - y).reshape(NB, BLK, ns), axis=(1, 2)) / 1e-5
                 changed = [int(b) for b in range(NB) if d[b] > 1e-9]
                 prep = fshift(scipy.signal.sosfiltfilt(_butter_sos("ap"), xp[rows]), h["sample_shift"][rows], axis=1)
@@ -424,11 +693,19 @@ def adc_records():
     for gen, v in (("NP1", 1), ("NP2", 2), ("NP2", 2.4), ("NP2", 2.1), ("NPultra", "NPultra")):
         for nc in (384, 385, 96, 13):
             ss, adc = neuropixel.adc_shifts(version=v, nc=nc)
+            if nc in (384, 96):
+                # the owner of an earlier table changes it (sorting, unit conversion): the next table is a fresh one
+                ss += 1.0
+                adc[:] = adc[::-1].copy()
+                ss, adc = neuropixel.adc_shifts(version=v, nc=nc)
             cyc = _ADC[gen]["cycles"]
             n = min(nc, 384)
             recs.append({"kind": "adc", "gen": gen, "version": str(v), "nc": int(len(ss)) if len(ss) != n else n,
                          "shift": [int(round(float(s) * cyc)) for s in ss], "adc": [int(a) for a in adc],
                          "exact": bool(np.all(np.abs(np.asarray(ss) * cyc - np.round(np.asarray(ss) * cyc)) < 1e-9))})
+        hs = neuropixel.trace_header(version=v if v != 2.4 else 2, nshank=4 if v == 2.4 else 1)
+        for k in hs:
+            hs[k] *= 0
         hs = neuropixel.trace_header(version=v if v != 2.4 else 2, nshank=4 if v == 2.4 else 1)
         ss = hs["sample_shift"]
         recs.append({"kind": "adc", "gen": gen, "version": f"trace_header({v})", "nc": int(len(ss)),
@@ -459,7 +736,7 @@ def _key(prop, t):
     if head == "EqualsAlone":
         return f"groups:{t['fn']}-equals-alone"
     k = KEYS.get(head, "destripe:" + head.lower())
-    if head in ("Removed", "Kept") and t.get("scenario", {}).get("labels") in ("bad", "mixed"):
+    if head in ("Removed", "Kept") and t.get("scenario", {}).get("labels") in ("bad", "mixed", "mixed_mid"):
         k += ":repaired-channels"
     return k
 
@@ -467,27 +744,29 @@ def _key(prop, t):
 def _describe(t):
     if t["kind"] == "calltree":
         kids = "; ".join(json.dumps(c["settings"], sort_keys=True) for c in t["children"][:1])
-        return (f"{t['fn']}(x, collection={t['grouping']} x20 rows, {json.dumps(t['concrete'], sort_keys=True)}) "
+        return (f"{t['fn']}(x, collection={t['grouping']} by blocks of rows, {json.dumps(t['concrete'], sort_keys=True)}, {json.dumps(t.get('opts') or {}, sort_keys=True)}) "
                 f"zero={t['zero']} equals-alone={t['alone']} caller={json.dumps(t['settings'], sort_keys=True)} "
                 f"first child={kids} {t['exc']}")
     if t["kind"] == "pipeline":
         s = t["scenario"]
+        more = {k: v for k, v in s.items() if k not in ("gen", "variant", "stream", "labels", "seed", "prior")}
+        more["prior"] = [f"{q['gen']}/{q['variant']}/{q['stream']}/{q['labels']}" + ("/malformed" if q.get("malformed") else "") for q in s.get("prior") or []]
         return (f"{'destripe' if s['stream'] == 'ap' else 'destripe_lfp'} {t['probe']} {s['variant']} labels={s['labels']} "
-                f"seed={s['seed']}: attenuation {t['att_db']} dB, min spike kept {t['kept_min']} {t['exc']}")
+                f"seed={s['seed']} {json.dumps(more, sort_keys=True)}: attenuation {t['att_db']} dB, min spike kept {t['kept_min']} {t['exc']}")
     if t["kind"] == "flow":
         return f"destripe {t['probe']} {t['scenario']['variant']} block labels {t['labels']} perturbations {t['perturb']} {t['exc']}"
     if t["kind"] == "adc":
         return f"adc_shifts {t['version']} nc={t['nc']}"
-    return f"agc nc={t['nc']} ns={t['ns']} wl={t['wl']} si={t['si']} dead={t['ndead']} f32={t['f32']}"
+    return f"agc nc={t['nc']} ns={t['ns']} wl={t['wl']} si={t['si']} dead={t['ndead']} f32={t['f32']} {json.dumps(t.get('opts') or {}, sort_keys=True)}"
 
 
 def _scenario_of(t):
     if t["kind"] == "calltree":
-        return {"kind": "calltree", "fn": t["fn"], "settings": t["concrete"], "grouping": t["grouping"], "seed": t["seed"]}
+        return {"kind": "calltree", "fn": t["fn"], "settings": t["concrete"], "grouping": t["grouping"], "seed": t["seed"], "opts": t.get("opts") or {}}
     if t["kind"] in ("pipeline", "flow"):
         return {"kind": t["kind"], "scenario": t["scenario"]}
     if t["kind"] == "agc":
-        return {"kind": "agc", "args": [t["nc"], t["ns"], t["wl"], t["si"], t["ndead"], t["seed"], t["f32"]]}
+        return {"kind": "agc", "args": [t["nc"], t["ns"], t["wl"], t["si"], t["ndead"], t["seed"], t["f32"], t.get("opts") or {}]}
     return {"kind": "adc"}
 
 
@@ -506,7 +785,7 @@ def _dispatch(job):
 
 def _strip(t):
     """what TLC needs (drop floats / free text)"""
-    t = {k: v for k, v in t.items() if k not in ("scenario", "concrete", "att_db", "kept_min", "wl", "si", "seed", "exc", "grouping")}
+    t = {k: v for k, v in t.items() if k not in ("scenario", "concrete", "att_db", "kept_min", "wl", "si", "seed", "exc", "grouping", "opts")}
     return t
 
 
@@ -580,6 +859,54 @@ def plan(ctx, cases):
         for _ in range(reps):
             jobs.append(("pipeline", {"gen": g, "variant": v, "stream": s, "labels": l, "seed": rng.randint(0, 2 ** 31 - 1),
                                       "by_version": rng.random() < 0.4}))
+    # the same property on inputs / histories a caller may equally well have (DESIGN 9.7): other record lengths (odd, not a power
+    # of two), single precision, other memory layouts, label vectors of other types with the outside stretch anywhere, the
+    # k_kwargs argument (mean referencing, channel groups, the defaults spelled out), earlier calls in the same process on the
+    # same header / labels / settings objects (one of them failing), the run with spikes before the run without
+    nmore = 10 if ctx.quick else 120
+    gens, lays, ldts = ("NP1", "NP2.4", "NP2", "NPultra"), ("F", "ro", "view", "C"), ("float", "i1", "u1", "int")
+    for k in range(nmore):
+        q = k if ctx.quick else rng.randint(0, 10 ** 6)
+        g, v, st = gens[k % 4], ("car", "kfilt")[(k // 2) % 2], ("ap", "ap", "lf")[k % 3]
+        spatial = ("average", "groups", "explicit", "default", "default")[q % 5]
+        if spatial == "average":
+            v = "car"
+        lab = (("false", "good", "none")[(q // 5) % 3] if spatial == "groups"
+               else ("mixed_mid", "bad", "outside_mid", "mixed", "outside_head", "false", "mixed_mid")[(q + q // 5) % 7])
+        sc = {"gen": g, "variant": v, "stream": st, "labels": lab, "seed": rng.randint(0, 2 ** 31 - 1), "by_version": rng.random() < 0.3,
+              "ns": (4097, 3001, 2500, 4096, 3500)[q % 5 if not ctx.quick else k % 4], "dtype": "f4" if q % 3 == 0 else "f8",
+              "layout": lays[(q // 3) % 4], "lab_dtype": ldts[(q // 2) % 4], "spatial": spatial, "spikes_first": bool(q % 2),
+              "bad_data": True, "spike_off": 1 + (q * 5) % 16, "amp_scale": (1.0, 1e4, 1e-3)[(q // 2) % 3]}
+        if (q // 2) % 2 == 0:
+            def other(**kw):
+                return dict({"gen": rng.choice([x for x in gens if x != g]), "variant": rng.choice(["car", "kfilt"]), "stream": rng.choice(["ap", "lf"]),
+                             "labels": rng.choice(LABEL_KINDS + LABEL_KINDS_MORE), "seed": rng.randint(0, 2 ** 31 - 1), "by_version": rng.random() < 0.3}, **kw)
+            sc["prior"] = [other(own_objects=True, spatial=rng.choice(["default", "explicit", "average"])), dict(other(), gen=g),
+                           dict(other(malformed=True), gen=g)]
+        jobs.append(("pipeline", sc))
+    # call trees: spelling of the group vector, more than three groups, groups of one / two rows, single precision, memory layouts,
+    # the calls on each group alone before the call with groups, an earlier call with other settings
+    more_groupings = groupings[:6] + [[0, 1, 2, 3, 4, 5], [3, 3, 1, 1, 0, 2], [4, 0, 4, 0, 2, 2], [0, 0, 0, 0, 0, 7]]
+    nmt = 8 if ctx.quick else 80
+    for fn in ("car", "kfilt", "fk"):
+        for k in range(nmt):
+            g = more_groupings[(k * 3 + len(fn)) % len(more_groupings)] if k % 8 else []
+            o = tree_opts(rng, fn, g)
+            if ctx.quick or k < 24:
+                o.update(ids=TREE_IDS[k % 6] if g else "plain", layout=TREE_LAYOUTS[(k + len(fn)) % 4], dtype="f4" if k % 3 == 2 else "f8",
+                         first=("groups", "alone")[k % 2], prior=bool((k // 2) % 2))
+            jobs.append(("calltree", (fn, tree_settings(rng, fn), g, rng.randint(0, 2 ** 31 - 1), o)))
+    # gain control: whitening other than the default, windows of 1 / 3 / 5 samples, offsets, zero stretches, layouts, a second pass
+    nma = 16 if ctx.quick else 150
+    for k in range(nma):
+        nc, ns = rng.choice([1, 2, 3, 4, 32]), rng.choice([200, 777, 1500, 4096, 1001])
+        wl, si = rng.choice([(0.5, 0.002), (300, 1.0), (0.01, 1 / 30000), (1, 1.0), (2, 1.0), (4, 1.0), (3000, 1.0), (0.026, 0.002)])
+        while not _even_fft(ns, int(round(wl / si / 2) * 2 + 1)):
+            ns += 37
+        o = agc_opts(rng)
+        if k < 12:
+            o.update(layout=("C", "F", "view")[k % 3], eps=(None, 1e-3, 1e-12, 1e-5)[k % 4], twice=bool(k % 2), dc=bool((k // 2) % 2), gaps=bool((k // 3) % 2))
+        jobs.append(("agc", (nc, ns, wl, si, rng.choice([0, 0, 1]) if nc > 1 else 0, rng.randint(0, 2 ** 31 - 1), k % 4 == 3, o)))
     # data flow: block label vectors from TLC (at least two blocks inside the brain, so that the filters have rows)
     flows = [c for c in cases["flow"] if len(c["exp"]["inside"]) >= 2]
     rng.shuffle(flows)
@@ -591,7 +918,8 @@ def plan(ctx, cases):
         # NP1 / NP2 only: a block of 64 channels spans 640 / 480 um there, so that "within kriging reach" (72 um) is
         # block adjacency as in the model; NPultra's 384 sites span 288 um in all
         jobs.append(("flow", {"gen": rng.choice(["NP1", "NP2"]), "variant": rng.choice(["kfilt", "car"]),
-                              "labels6": c["labels"], "perturb": pert, "seed": rng.randint(0, 2 ** 31 - 1)}))
+                              "labels6": c["labels"], "perturb": pert, "seed": rng.randint(0, 2 ** 31 - 1),
+                              "lab_dtype": ("int", "float", "i1")[len(jobs) % 3]}))
     return jobs
 
 
@@ -623,17 +951,24 @@ def run(ctx):
     for kind in ("calltree", "pipeline", "flow"):
         for t in [t for t in recs if t["kind"] == kind][:2]:
             ctx.sample({k: v for k, v in t.items() if k not in ("shift", "collection")})
-    selftest(ctx, recs, {v["index"] for v in verdicts})
+    selftest(ctx, recs, {v["index"] for v in verdicts if v["prop"]})
     ctx.cov["rule"] = ("model: all label vectors over {0,1,2,3}^6, all groupings of 6 channels onto <= 3 groups x settings sets, "
                        "the three wiring tables; experiments: (function, settings, grouping) call trees, (generation, variant, "
-                       "stream, label class, seed) pipelines, (block label vector, perturbed block) data-flow probes, AGC lengths")
+                       "stream, label class, seed) pipelines, (block label vector, perturbed block) data-flow probes, AGC lengths; "
+                       "each also with other record lengths / element types / memory layouts / label and group-vector spellings / "
+                       "k_kwargs (mean, groups) / earlier calls on the same header, labels and settings objects")
     ctx.cov["exhaustive"] = True
     ctx.cov["numeric_postconditions"] = ("Removed >= 40 dB, Kept >= 90 %, zero median/mean <= 1e-9 of scale, group == alone rtol 1e-7, "
                                          "AGC product 1e-6 relative: measured on the real output, not decided by TLC")
     ctx.assumptions += ["record sizes whose AGC convolution pads to an odd FFT size (3^k) are avoided: fourier.convolve on those "
                         "sizes belongs to C18", "the disturbance is the only signal in the Removed runs (no noise floor); spikes "
                         "sit on good channels away from dead / noisy ones", "block label vectors need >= 2 blocks inside the brain; data-flow probes on NP1 / NP2 geometry (blocks of 64 channels far longer than the kriging reach)",
-                        "LFP stream: the delay table is applied in LFP samples, as destripe_lfp does"]
+                        "LFP stream: the delay table is applied in LFP samples, as destripe_lfp does",
+                        "k-filter with channel groups through destripe(k_kwargs={'collection': ...}): the recursion of kfilt filters each "
+                        "group without mirrored padding (ntr_pad=0 hard-wired), a spike on the first / last 8 rows of a group keeps only "
+                        "40-50 % there on the unchanged code; those depths are left out of Kept in that mode (reported to the builder)",
+                        "integer-typed data with channel groups (car / kfilt / fk store the group results into zeros_like(x): truncation) "
+                        "is not generated (reported to the builder)"]
 
 
 def selftest(ctx, recs, bad):
@@ -664,13 +999,16 @@ def selftest(ctx, recs, bad):
     for t in pick(lambda t: t["kind"] == "pipeline" and t["shift"]):
         t["shift"][5], t["shift"][40] = t["shift"][40] + 1, t["shift"][5]
         mut.append(t); kinds.append("shift-order")
-    for t in pick(lambda t: t["kind"] == "pipeline" and len(t["events"]) >= 3):
+    for t in pick(lambda t: t["kind"] == "pipeline" and len(t["events"]) >= 3 and not t["unbound"]):
         i = [e[0] for e in t["events"]].index("realign")
         t["events"].append(t["events"].pop(i))
         mut.append(t); kinds.append("realign-last")
     for t in pick(lambda t: t["kind"] == "pipeline" and t["removed"] == "ok"):
         t["removed"] = "bad"
         mut.append(t); kinds.append("removed")
+    for t in pick(lambda t: t["kind"] == "pipeline" and t["zero"] == "ok"):
+        t["zero"] = "bad"
+        mut.append(t); kinds.append("pipe-zero")
     for t in pick(lambda t: t["kind"] == "flow" and any(t["labels"][e["j"]] == 3 for e in t["perturb"])):
         e = next(e for e in t["perturb"] if t["labels"][e["j"]] == 3)
         e["changed"] = sorted(set(e["changed"]) | {j for j in range(NB) if t["labels"][j] != 3})
@@ -683,7 +1021,9 @@ def selftest(ctx, recs, bad):
     for t in pick(lambda t: t["kind"] == "adc" and t["nc"] == 384):
         t["shift"][100] += 1
         mut.append(t); kinds.append("adc")
-    need = {"child-lagc", "child-operator", "rows", "shift-sign", "removed", "agc", "adc", "zero"}
+    need = {"child-lagc", "child-operator", "rows", "shift-sign", "removed", "agc", "adc", "zero", "pipe-zero"}
+    if any(t.get("unbound") for t in recs):
+        need -= {"shift-sign"}            # no shift vector was observed on this code (drift reported by the trace specification)
     if not need <= set(kinds):
         if not ctx.violations:
             raise tlc.TLCError(f"selftest: could not build every kind of corrupted record (have {sorted(set(kinds))})")
@@ -701,7 +1041,7 @@ def replay(ctx, sc):
     cases = run_model(ctx)
     _ADC.update(cases["adc"])
     if sc["kind"] == "calltree":
-        recs = [calltree_experiment(sc["fn"], sc["settings"], sc["grouping"], sc["seed"])]
+        recs = [calltree_experiment(sc["fn"], sc["settings"], sc["grouping"], sc["seed"], sc.get("opts"))]
     elif sc["kind"] == "pipeline":
         recs = [pipeline_experiment(sc["scenario"])]
     elif sc["kind"] == "flow":
